@@ -158,6 +158,49 @@ def healpix_case(ctx: Ctx, stream: str, i: int, max_nside: int) -> None:
     ctx.count(f'healpix:nside{nside}')
 
 
+def mixed_dtype_case(ctx: Ctx, stream: str, i: int) -> None:
+    """every axis's coordinate is rounded on its OWN: the coordinates of one call may come in different dtypes (an
+    integer or wide-float axis next to a float16 one, Python numbers, NumPy arrays) and an axis may be longer than what
+    a narrow float can count (2048 for float16): each coordinate must be rounded in the dtype it came in"""
+    rng = ctx.rng(stream, i)
+    long_axis = rng.choice([2100, 4100, 4098, 2050])
+    pshape = (long_axis, rng.choice([2, 3]))                       # pixel_shape (x fastest)
+    if rng.random() < 0.3:
+        pshape = pshape + (2,)
+    land = make_landscape(pshape[::-1])
+    npts = 6
+    xs = [rng.choice([2049, 2051, long_axis - 1, long_axis, 2047, 1, long_axis - 3, 3001]) for _ in range(npts)]
+    rest = [[rng.randint(-1, d) for _ in range(npts)] for d in pshape[1:]]
+    xdt = rng.choice(['int32', 'float32', 'python', 'float64' if jax.config.jax_enable_x64 else 'float32', 'numpy-int64'])
+    odt = rng.choice(['float16', 'float16', 'bfloat16', 'float32'])
+
+    def mk(vals, dt):
+        if dt == 'python':
+            return np.asarray(vals, dtype=np.int64).tolist() if len(vals) > 1 else vals[0]
+        if dt == 'numpy-int64':
+            return np.asarray(vals, dtype=np.int64)
+        return jnp.asarray(np.asarray(vals, dtype=np.float64), dtype=getattr(jnp, dt))
+    coords = [mk(xs, xdt)] + [mk(r, odt) for r in rest]
+    if xdt == 'python':
+        coords[0] = jnp.asarray(np.asarray(xs), dtype=jnp.int32) if rng.random() < 0.5 else np.asarray(xs, dtype=np.int32)
+    st, res = safe(land.pixel2index, *coords)
+    cfg = {'pixel_shape': pshape, 'x': xs, 'x_dtype': xdt, 'other_dtype': odt, 'others': rest}
+    if st != 'ok':
+        ctx.fail(stream, i, f'pixel2index-raises:{st}', f'pixel2index raised {st}: {str(res)[:150]}', cfg)
+        return
+    res = np.asarray(res)
+    for t in range(npts):
+        r = [xs[t]] + [rk[t] for rk in rest]
+        inside = all(0 <= rk < d for rk, d in zip(r, pshape))
+        want = int(np.ravel_multi_index(tuple(r[::-1]), pshape[::-1])) if inside else -1
+        if int(res[t]) != want:
+            ctx.fail(stream, i, 'pixel2index-wrong:mixed-coordinate-dtypes', f'pixel2index{tuple(r)} on pixel_shape {pshape} with x as '
+                     f'{xdt} and the other axes as {odt} = {int(res[t])}, expected {want}', cfg)
+            break
+    ctx.case(f'mixed:{pshape}:{xdt}:{odt}:{xs}', True, sample=cfg)
+    ctx.count(f'mixed:{xdt}:{odt}')
+
+
 def bigmap_case(ctx: Ctx, stream: str, i: int) -> None:
     """a map with more than 2**31 pixels needs int64 indices"""
     x64 = bool(jax.config.jax_enable_x64)
@@ -270,6 +313,9 @@ def run(ctx: Ctx) -> None:
     for i in range(8 if q else 80):
         if ctx.want('precision', i):
             precision_case(ctx, 'precision', i)
+    for i in range(24 if ctx.tier == 'quick' else 400):
+        if ctx.want('mixed', i):
+            mixed_dtype_case(ctx, 'mixed', i)
     for i in range(2):
         if ctx.want('bigmap', i):
             bigmap_case(ctx, 'bigmap', i)
